@@ -46,3 +46,4 @@ def rules(ctx):
     S.survey_residue_rules(ctx)
     S.create_only_when_empty_rules(ctx)
     S.durability_guard_rules(ctx)
+    S.flush_take_rules(ctx)
